@@ -1,0 +1,167 @@
+//go:build verif
+
+package mq
+
+// Contracts for the deductive verifier in /verif (cmd/mqvc). They are
+// structured comments keyed by function; the verifier generates the proof
+// obligations from the real SSA of the functions named here.
+
+// ---------------------------------------------------------------- wire types
+
+//@ func (vbint).fill
+//@   requires 0 <= i
+//@   ensures result == specVbWidth(uint(v))
+//@   ensures 1 <= result && result <= 10
+//@   assigns elems(data)
+//@   loop 0:
+//@     invariant n <= i && i - n <= 9
+//@     invariant x == specShr7(uint(v), i - n)
+//@     invariant i - n > 0 ==> x > 0
+//@     decreases 10 - (i - n)
+
+//@ func (*vbint).UnmarshalBinary
+//@   assigns *v
+//@   ensures result != nil ==> istype(result, *Malformed) && payload(result, *Malformed) != nil && unchanged(*v)
+//@   ensures result == nil ==> len(data) >= 1 && uint(*v) <= 268435455
+//@   ensures len(data) == 0 ==> result != nil
+//@   loop 0:
+//@     invariant -1 <= rangeindex && rangeindex <= 3 && rangeindex < len(data)
+//@     invariant multiplier == specPow128(rangeindex + 1)
+//@     invariant value < multiplier
+//@     decreases 4 - rangeindex
+
+//@ func (*bits).UnmarshalBinary
+//@   requires len(data) >= 1
+//@   assigns *v
+//@   ensures result == nil && *v == bits(data[0])
+
+//@ func (*Ident).UnmarshalBinary
+//@   requires len(data) >= 1
+//@   assigns *v
+//@   ensures result == nil && *v == Ident(data[0])
+
+//@ func (*wbool).UnmarshalBinary
+//@   requires len(data) >= 1
+//@   assigns *v
+//@   ensures data[0] == 0 ==> result == nil && *v == false
+//@   ensures data[0] == 1 ==> result == nil && *v == true
+//@   ensures data[0] > 1 ==> result != nil && unchanged(*v)
+
+//@ func (*wuint16).UnmarshalBinary
+//@   assigns *v
+//@   ensures len(data) < 2 ==> result != nil && istype(result, *Malformed) && payload(result, *Malformed) != nil && unchanged(*v)
+//@   ensures len(data) >= 2 ==> result == nil && *v == wuint16(specU16(data[0], data[1]))
+
+//@ func (*wuint32).UnmarshalBinary
+//@   assigns *v
+//@   ensures len(data) < 4 ==> result != nil && istype(result, *Malformed) && payload(result, *Malformed) != nil && unchanged(*v)
+//@   ensures len(data) >= 4 ==> result == nil && *v == wuint32(specU32(data[0], data[1], data[2], data[3]))
+
+//@ func (*bindata).UnmarshalBinary
+//@   assigns *v
+//@   ensures result != nil ==> istype(result, *Malformed) && payload(result, *Malformed) != nil && unchanged(*v)
+//@   ensures len(data) < 2 ==> result != nil
+//@   ensures len(data) >= 2 && len(data) < 2 + int(specU16(data[0], data[1])) ==> result != nil
+//@   ensures len(data) >= 2 && len(data) >= 2 + int(specU16(data[0], data[1])) ==> result == nil
+//@   ensures result == nil && specU16(data[0], data[1]) == 0 ==> unchanged(*v)
+//@   ensures result == nil && specU16(data[0], data[1]) != 0 ==> len(*v) == int(specU16(data[0], data[1])) && fresh(*v)
+
+//@ func (*rawdata).UnmarshalBinary
+//@   assigns *v
+//@   ensures result == nil && len(*v) == len(data) && fresh(*v)
+
+//@ func (*UserProp).UnmarshalBinary
+//@   assigns *v
+//@   ensures result != nil ==> istype(result, *Malformed) && payload(result, *Malformed) != nil
+//@   ensures result == nil ==> len(data) >= 4 + len(v[0]) + len(v[1])
+
+//@ func unmarshalErr
+//@   requires istype(err, *Malformed) ==> payload(err, *Malformed) != nil
+//@   ensures result != nil && fresh(result)
+
+//@ func newMalformed
+//@   requires istype(reason, *Malformed) ==> payload(reason, *Malformed) != nil
+//@   ensures result != nil && fresh(result)
+
+//@ func (*bits).ReadFrom
+//@   inline
+//@   requires r != nil
+
+//@ func (*vbint).ReadFrom
+//@   inline
+//@   requires r != nil
+//@   loop 0:
+//@     invariant 0 <= i && i <= 4
+//@     invariant multiplier == specPow128(int(i))
+//@     invariant value < multiplier
+//@     decreases 5 - i
+
+// ---------------------------------------------------------------- framing engine
+
+//@ func (*buffer).getAny
+//@   inline
+//@   loop 0:
+//@     invariant 0 <= b.i
+//@     decreases len(b.data) - b.i
+
+//@ func (*fixedHeader).ReadRemaining
+//@   requires r != nil
+//@   requires uint(f.remainingLen) <= 268435455
+//@   assigns $heap, $pos, $reads
+//@   ensures (result0 != nil) != (result1 != nil)                      #C04
+
+//@ func (*fixedHeader).ReadFrom
+//@   requires r != nil
+//@   assigns *f, $heap, $pos, $reads
+//@   ensures result1 == nil ==> uint(f.remainingLen) <= 268435455
+
+//@ func ReadPacket
+//@   requires r != nil
+//@   ensures (result0 != nil) != (result1 != nil)                      #C04
+
+// ---------------------------------------------------------------- packet decoders
+
+//@ func (*Connect).UnmarshalBinary
+//@   assigns $heap
+//@ func (*ConnAck).UnmarshalBinary
+//@   assigns $heap
+//@ func (*Publish).UnmarshalBinary
+//@   assigns $heap
+//@ func (*PubAck).UnmarshalBinary
+//@   assigns $heap
+//@ func (*PubRec).UnmarshalBinary
+//@   assigns $heap
+//@ func (*PubRel).UnmarshalBinary
+//@   assigns $heap
+//@ func (*PubComp).UnmarshalBinary
+//@   assigns $heap
+//@ func (*Subscribe).UnmarshalBinary
+//@   assigns $heap
+//@   loop 0:
+//@     invariant 0 <= b.i && b.data == data
+//@     decreases len(data) - b.i
+//@ func (*SubAck).UnmarshalBinary
+//@   assigns $heap
+//@   loop 0:
+//@     invariant 0 <= b.i && -1 <= rangeindex
+//@     decreases len(p.reasonCodes) - rangeindex
+//@ func (*Unsubscribe).UnmarshalBinary
+//@   assigns $heap
+//@   loop 0:
+//@     invariant 0 <= b.i && b.data == data
+//@     decreases len(data) - b.i
+//@ func (*UnsubAck).UnmarshalBinary
+//@   assigns $heap
+//@   loop 0:
+//@     invariant 0 <= b.i && -1 <= rangeindex
+//@     decreases len(p.reasonCodes) - rangeindex
+//@ func (*PingReq).UnmarshalBinary
+//@   assigns $heap
+//@ func (*PingResp).UnmarshalBinary
+//@   assigns $heap
+//@ func (*Disconnect).UnmarshalBinary
+//@   assigns $heap
+//@ func (*Auth).UnmarshalBinary
+//@   assigns $heap
+//@ func (*Undefined).UnmarshalBinary
+//@   assigns $heap
